@@ -24,7 +24,7 @@ def spec(th, seed):
     units.append(U('C10_alias.simd-aligned', 'mon/alias.cpp', 'plain', defs=['-DALIAS_PROP=2'] + ['-DGLM_FORCE_INTRINSICS', '-DGLM_FORCE_DEFAULT_ALIGNED_GENTYPES', '-mavx2', '-mfma']))
     if th:
         units.append(U('C10_alias.clang', 'mon/alias.cpp', 'clang', defs=['-DALIAS_PROP=2']))
-        units.append(U('C10_alias.simd-sse2.O0', 'mon/alias.cpp', 'plainO0', defs=['-DALIAS_PROP=2', '-DGLM_FORCE_INTRINSICS', '-DGLM_FORCE_DEFAULT_ALIGNED_GENTYPES', '-msse2'], scale=0.2))
+        units.append(U('C10_alias.simd-sse41.O0', 'mon/alias.cpp', 'plainO0', defs=['-DALIAS_PROP=2', '-DGLM_FORCE_INTRINSICS', '-DGLM_FORCE_DEFAULT_ALIGNED_GENTYPES', '-msse4.1'], scale=0.2))
     return {
         'units': units,
         'rule': 'aliasing supplement (mon/alias.cpp): every compound/in-place/out-parameter form is run twice from the same state, once with the aliased operand replaced by a copy, and the final states must be bitwise identical; per element type (float, double) and size 2,3,4 (round robin) random matrices from ten families: U*diag(sigma)*V^T with random '
